@@ -119,7 +119,7 @@ def has_sig(result, sig):
     return None
 
 
-def minimise(job, result, sig, budget_s=90, log_fn=None):
+def minimise(job, result, sig, budget_s=90, log_fn=None, shrink=None):
     """ddmin over the recorded schedule; every candidate is a fresh forked session"""
     t0 = time.time()
     base = explicit_job(job, result)
@@ -163,6 +163,24 @@ def minimise(job, result, sig, budget_s=90, log_fn=None):
         if hit:
             best = hit
             steps = hit[0]
+    # argument-level simplification of the remaining steps (fewer terms / atoms / names /
+    # transpositions), greedily while the same violation persists
+    if shrink is not None:
+        improved = True
+        while improved and time.time() - t0 < budget_s:
+            improved = False
+            cands, where = [], []
+            for i, st in enumerate(steps):
+                for c in shrink(st)[:12]:
+                    cands.append(steps[:i] + [c] + steps[i + 1:])
+                    where.append(i)
+            if not cands:
+                break
+            hit = test_many(cands[:96])
+            if hit:
+                steps = hit[0]
+                best = hit
+                improved = True
     # reset session parameters to defaults one by one
     final_steps, final_res = best
     params = dict(final_res["params"])
@@ -227,7 +245,10 @@ def report_violation(prop, job, result, violation, minimise_budget=90):
     try:
         if sig.get("class") == "liveness":
             raise RuntimeError("liveness violations are not minimised")
-        mjob, mres = minimise(job, result, sig, budget_s=minimise_budget)
+        shrink = None
+        if job.get("kind") == "c08":
+            from .c08 import shrink_step as shrink
+        mjob, mres = minimise(job, result, sig, budget_s=minimise_budget, shrink=shrink)
     except Exception as exc:  # noqa: BLE001
         log(f"minimiser failed ({exc}); reporting the unminimised schedule")
         mjob, mres = explicit_job(job, result), result
